@@ -1,4 +1,4 @@
-"""ogginject_tie.py — correspondence of the Lean model of Ogg comment injection
+"""ogginject_tie.py — `run(ctx)`: correspondence of the Lean model of Ogg comment injection
 (lean/MutagenModel/Model/Container/OggInject.lean: Vorbis, Opus, Speex, Theora, FLAC in Ogg) with
 OggFileType.save / OggFileType.delete, the `_inject` internals (which pages are handed to
 OggPage.replace) and the comment-reading constructors, and the statements of the container properties
@@ -789,6 +789,264 @@ def run(ctx, only=None):
     return ncases
 
 
+# ---------------------------------------------------------------------------------------------
+# C15, second sentence: the API functions by themselves
+
+def page_spec(p):
+    """a real OggPage as the driver's op=replace wants it"""
+    pk = ".".join(hx(x) for x in p.packets) if p.packets else "_"
+    return "%d:%d:%d:%d:%d:%d:%d:%s" % (p.complete, p.continued, p.first, p.last, p.sequence, p.serial, p.position, pk)
+
+
+def gen_api_file(rng):
+    """a multiplexed file of 1-3 streams of random packets -> (bytes, pages in file order)"""
+    streams, used = [], set()
+    for _ in range(rng.choice([1, 2, 2, 3])):
+        s = rng.choice([0, 1, 7, 0xFFFFFFFF, rng.randrange(1 << 32)])
+        if s in used:
+            continue
+        used.add(s)
+        packets = [rbytes(rng, rng.choice([0, 1, 30, 254, 255, 256, 510, 600, 1500, 5000])) for _ in range(rng.choice([1, 3, 6, 12]))]
+        streams.append(paginate(rng, packets, s, first_alone=rng.random() < 0.5, maxsegs=rng.choice([1, 2, 3, 8, 255])))
+    pages = interleave(rng, streams, bos_first=rng.random() < 0.6) if len(streams) > 1 else streams[0]
+    return b"".join(render_page(p) for p in pages), pages
+
+
+def read_real_pages(data):
+    from mutagen.ogg import OggPage
+    f = io.BytesIO(data)
+    out = []
+    while True:
+        try:
+            out.append(OggPage(f))
+        except Exception:
+            break
+    return out
+
+
+def gen_new_pages(rng, old_pages):
+    """new pages for OggPage.replace, numbered and flagged by `the caller` -> (pages, how)"""
+    from mutagen.ogg import OggPage
+    how = rng.choice(["from_packets", "from_packets", "from_packets-small-pages", "preserve", "handmade", "handmade", "none"])
+    try:
+        packets = OggPage.to_packets(old_pages) if old_pages else []
+    except Exception:
+        packets = [b"x"]
+    if how == "none":
+        return [], how
+    if how == "preserve" and old_pages:
+        pk = [rbytes(rng, len(x)) for x in packets]
+        try:
+            return OggPage._from_packets_try_preserve(pk, old_pages), how
+        except Exception:
+            how = "from_packets"
+    if how.startswith("from_packets"):
+        pk = list(packets) or [b""]
+        edit = rng.choice(["grow", "shrink", "same", "more-packets", "fewer-packets", "huge"])
+        if edit == "grow":
+            pk[0] = pk[0] + rbytes(rng, rng.choice([1, 300, 5000, 9000]))
+        elif edit == "shrink":
+            pk[0] = pk[0][:rng.choice([0, 1, 10])]
+        elif edit == "more-packets":
+            pk = pk + [rbytes(rng, rng.choice([0, 5, 700])) for _ in range(rng.choice([1, 3]))]
+        elif edit == "fewer-packets":
+            pk = pk[:1]
+        elif edit == "huge":
+            pk[-1] = pk[-1] + rbytes(rng, 20000)
+        kw = {}
+        if how.endswith("small-pages"):
+            kw = dict(default_size=rng.choice([255, 300, 512, 1024]), wiggle_room=rng.choice([0, 100, 2048]))
+        return OggPage.from_packets(pk, sequence=rng.choice([0, 0, 1000, old_pages[0].sequence if old_pages else 5]), **kw), how + ":" + edit
+    pages = []
+    for _ in range(rng.choice([1, 1, 2, 3, 4])):
+        p = OggPage()
+        p.packets = [rbytes(rng, rng.choice([0, 1, 100, 255, 510, 300])) for _ in range(rng.choice([0, 1, 1, 2, 3]))]
+        p.complete = rng.random() < 0.7
+        if not p.packets:
+            p.complete = True      # OggPage.size of an incomplete page without packets raises UnboundLocalError: outside the model
+        p.continued = rng.random() < 0.3
+        p.first = rng.random() < 0.2
+        p.last = rng.random() < 0.2
+        p.sequence = rng.choice([0, 5, 77, 0xFFFFFFFF])
+        p.serial = rng.choice([0, 1234, 0xFFFFFFFF])
+        p.position = rng.choice([0, -1, 12345, -(1 << 63), (1 << 63) - 1])
+        pages.append(p)
+    return pages, "handmade"
+
+
+def check_replace(ctx, data, pages, idx, old_real, new_real, how, out, case):
+    """the second sentence of C15 on the real output, for a run that is contiguous in its stream and new pages that
+    came from from_packets / _from_packets_try_preserve"""
+    key = "oggapi:replace:"
+    S = old_real[0].serial
+    outp = strict_parse(out)
+    if outp is None:
+        ctx.violation(key + "malformed", "the file is no longer a sequence of Ogg pages with correct checksums", case)
+        return
+    if [p["raw"] for p in outp if p["serial"] != S] != [render_page(p) for p in pages if p["serial"] != S]:
+        ctx.violation(key + "foreign-page-changed", "pages of other logical streams are not byte-identical and in order", case)
+    mine_in = [p for p in pages if p["serial"] == S]
+    mine = [p for p in outp if p["serial"] == S]
+    if [p["seq"] for p in mine_in] == list(range(len(mine_in))) and [p["seq"] for p in mine] != list(range(len(mine))):
+        ctx.violation(key + "sequence-gap", "the stream was numbered 0..n-1 and is not any more: %r" % ([p["seq"] for p in mine][:30],), case)
+    if len(mine) != len(mine_in) - len(old_real) + len(new_real):
+        ctx.violation(key + "page-count", "the stream has %d pages, expected %d - %d + %d" % (len(mine), len(mine_in), len(old_real), len(new_real)), case)
+        return
+    # first/last flags: outside the run untouched; inside: only what the ends of the old run had
+    a = [i for i, p in enumerate(mine_in) if p is pages[idx[0]]][0]
+    run_out = mine[a:a + len(new_real)]
+    want_first = [bool(old_real[0].first)] + [False] * (len(new_real) - 1)
+    want_last = [False] * (len(new_real) - 1) + [bool(old_real[-1].last)]
+    if [bool(p["flags"] & 2) for p in run_out] != want_first or [bool(p["flags"] & 4) for p in run_out] != want_last:
+        ctx.violation(key + "first-last-flags", "first/last flags of the new run are not those of the ends of the old run", case)
+    outside_in = mine_in[:a] + mine_in[a + len(old_real):]
+    outside_out = mine[:a] + mine[a + len(new_real):]
+    if [(p["flags"], p["pos"], tuple(p["segs"]), p["body"]) for p in outside_in] != [(p["flags"], p["pos"], tuple(p["segs"]), p["body"]) for p in outside_out]:
+        ctx.violation(key + "stream-page-changed", "a page of the stream outside the run changed in more than its number", case)
+    # the run's packets: those of the new pages
+    want = b"".join(b"".join(p.packets) for p in new_real)
+    if b"".join(p["body"] for p in run_out) != want:
+        ctx.violation(key + "run-data", "the new run does not hold the data of the new pages", case)
+
+
+def run_c15(ctx):
+    """OggPage._from_packets_try_preserve, OggPage.replace and OggPage.renumber themselves against the model
+    (`ogginject op=preserve|replace|renumber`), byte for byte, on generated multiplexed page lists; and the second
+    sentence of C15 on the real output.  Returns the number of cases."""
+    from mutagen.ogg import OggPage
+    rng = ctx.rng
+    n = int(os.environ.get("VERIF_OGGAPI_CASES", "0")) or ctx.budget(150, 1500)
+    reqs = []
+    ncases = 0
+    for i in range(n):
+        what = rng.choice(["replace"] * 4 + ["preserve"] * 3 + ["renumber"] * 2)
+        data, pages = gen_api_file(rng)
+        damaged = None
+        if rng.random() < 0.12:
+            damaged = rng.choice(["junk-behind", "cut"])
+            data = data + rbytes(rng, rng.choice([1, 30])) if damaged == "junk-behind" else data[:len(data) - rng.choice([1, 10, 30])]
+        real = read_real_pages(data)
+        if not real:
+            continue
+        S = rng.choice(real).serial
+        mine = [k for k, p in enumerate(real) if p.serial == S]
+        a = rng.randrange(len(mine))
+        b = min(len(mine), a + rng.choice([1, 1, 2, 3, 4]))
+        idx = mine[a:b]
+        contiguous = True
+        if rng.random() < 0.1 and len(idx) > 2:
+            idx = idx[:1] + idx[2:]               # a run with a hole: replace does what it is told
+            contiguous = False
+        if rng.random() < 0.05:
+            idx = []
+        case = dict(op=what, damaged=damaged, data=hx(data) if len(data) < 1200 else "len=%d" % len(data), old=idx, serial=S)
+        if what == "preserve":
+            olds = [real[k] for k in idx]
+            if rng.random() < 0.1 and len(real) > 1:
+                olds = olds + [rng.choice(real)]          # maybe another serial, maybe a wrong number: to_packets refuses
+            try:
+                base = OggPage.to_packets(olds)
+            except Exception:
+                base = [b"abc"]
+            kind = rng.choice(["same-sizes", "same-sizes", "swap-sizes", "other-count", "one-byte-moved", "empty", "grown"])
+            pk = [rbytes(rng, len(x)) for x in base]
+            if kind == "swap-sizes" and len(pk) > 1:
+                pk[0], pk[-1] = pk[-1], pk[0]
+            elif kind == "one-byte-moved" and len(pk) > 1 and len(pk[0]) > 0:
+                pk[-1] = pk[-1] + pk[0][-1:]
+                pk[0] = pk[0][:-1]                  # same count, same total, other sizes
+            elif kind == "other-count":
+                pk = pk + [b"q"]
+            elif kind == "empty":
+                pk = []
+            elif kind == "grown":
+                pk = [x + rbytes(rng, rng.choice([1, 4000])) for x in pk] or [b"z"]
+            olddata = b"".join(p.write() for p in olds)
+            k, r = timed(lambda: OggPage._from_packets_try_preserve(pk, olds), 20)
+            if k == "hang":
+                ctx.violation("oggapi:preserve:hang", "did not finish", case)
+                continue
+            if k == "ok":
+                impl = "ok pages=%s v=%s" % (";".join(desc_page(p) for p in r) or "-", hx(b"".join(p.write() for p in r)))
+                # oracle: the packets come back; same sizes => same page sizes
+                got, open_, _ = stream_packets(lenient_pages(b"".join(p.write() for p in r)))
+                first_cont = bool(r) and r[0].continued
+                if not first_cont and (got + ([open_] if open_ is not None else [])) != pk and not (pk and pk[-1] == b"" and open_ is None and got == pk):
+                    ctx.violation("oggapi:preserve:packets-lost", "reassembling the pages does not give the packets back (%s)" % kind, dict(case, kind=kind))
+                if [len(x) for x in pk] == [len(x) for x in base] and [p.size for p in r] != [p.size for p in olds]:
+                    ctx.violation("oggapi:preserve:layout-not-kept", "same packet sizes, but the page sizes differ", dict(case, kind=kind))
+            else:
+                impl = classify(r)
+            line = "ogginject op=preserve data=%s pk=%s" % (hx(olddata), ",".join(hx(x) for x in pk) or "_")
+            ctx.case(key=("oggapi", what, i), nontrivial=(k == "ok"), modelled=True, sample=dict(case, kind=kind) if i == 3 else None)
+            ctx.hist["oggapi:preserve:%s:%s" % (kind, impl.split(" ")[0] + ("" if k == "ok" else ":" + impl.split(" ")[1]))] += 1
+            reqs.append((line, impl, dict(case, kind=kind)))
+            ncases += 1
+            continue
+        if what == "renumber":
+            pos = rng.choice([0] + [p.offset for p in real])
+            ser = rng.choice([S, S, 424242])
+            start = rng.choice([0, 1, 7, 1000, 0xFFFFFFFF, 0xFFFFFFFE, 0xFFFFFFFF - len(mine)])
+            f = io.BytesIO(data)
+            f.seek(pos)
+            k, r = timed(lambda: OggPage.renumber(f, ser, start), 20)
+            if k == "hang":
+                ctx.violation("oggapi:renumber:hang", "did not finish", case)
+                continue
+            out = f.getvalue()
+            impl = ("ok v=%s" % hx(out)) if k == "ok" else classify(r) + (" same=1" if out == data else " v=%s" % hx(out))
+            if k == "ok" and not damaged:
+                outp = strict_parse(out)
+                if outp is None or [p["raw"] for p in outp if p["serial"] != ser or p["offset"] < pos] != \
+                        [render_page(p) for p, q in zip(pages, real) if p["serial"] != ser or q.offset < pos]:
+                    ctx.violation("oggapi:renumber:other-page-changed", "renumber changed a page it should not touch", case)
+                elif [p["seq"] for p in outp if p["serial"] == ser and p["offset"] >= pos] != \
+                        list(range(start, start + sum(1 for q in real if q.serial == ser and q.offset >= pos))):
+                    ctx.violation("oggapi:renumber:numbers", "the pages are not numbered start, start+1, ...", case)
+            ctx.case(key=("oggapi", what, i), nontrivial=(k == "ok" and out != data), modelled=True)
+            ctx.hist["oggapi:renumber:%s" % (impl.split(" v=")[0].split(" same")[0])] += 1
+            reqs.append(("ogginject op=renumber data=%s serial=%d start=%d pos=%d" % (hx(data), ser, start, pos), impl,
+                         dict(case, start=start, pos=pos, ser=ser)))
+            ncases += 1
+            continue
+        # ---- replace
+        olds = [real[k] for k in idx]
+        new_real, how = gen_new_pages(rng, olds)
+        spec = ";".join(page_spec(p) for p in new_real) or "_"
+        nspecs = [(p.complete, len(p.packets)) for p in new_real]
+        f = io.BytesIO(data)
+        k, r = timed(lambda: OggPage.replace(f, olds, new_real), 30)
+        if k == "hang":
+            ctx.violation("oggapi:replace:hang", "did not finish", case)
+            continue
+        out = f.getvalue()
+        impl = ("ok v=%s" % hx(out)) if k == "ok" else classify(r) + (" same=1" if out == data else " v=%s" % hx(out))
+        rel = "none" if not new_real or not olds else ("fewer" if len(new_real) < len(olds) else "equal" if len(new_real) == len(olds) else "more")
+        case.update(how=how, relation=rel)
+        ctx.case(key=("oggapi", what, i), nontrivial=(k == "ok" and out != data), modelled=True, sample=case if i == 5 else None)
+        ctx.hist["oggapi:replace:%s:%s" % (rel, impl.split(" v=")[0].split(" same")[0])] += 1
+        ctx.hist["oggapi:replace:new-pages:" + how.split(":")[0]] += 1
+        reqs.append(("ogginject op=replace data=%s old=%s new=%s" % (hx(data), ",".join(map(str, idx)) or "-", spec), impl, case))
+        ncases += 1
+        if k == "ok" and not damaged and contiguous and olds and new_real and not how.startswith("handmade"):
+            check_replace(ctx, data, pages, idx, olds, new_real, how, out, case)
+        elif k != "ok" and not damaged and olds and new_real and not how.startswith("handmade") and \
+                max(p.sequence for p in real) + len(new_real) < (1 << 32) - 1:
+            ctx.violation("oggapi:replace:raises", "%s on a well-formed file with pages from from_packets" % classify(r), case)
+    answers = ask_model(ctx, [r[0] for r in reqs]) if reqs else None
+    if answers is None:
+        ctx.notes.append("ogginject_tie.run_c15: model driver unavailable, tie skipped")
+        return ncases
+    if any(a == "bad-op" for a in answers):
+        ctx.notes.append("ogginject_tie.run_c15: the driver does not know op=preserve/replace/renumber yet; tie skipped")
+        return ncases
+    for (line, impl, desc), ans in zip(reqs, answers):
+        ctx.traces_validated += 1
+        if ans != impl:
+            ctx.disagree("ogg page api (%s)" % desc["op"], desc, model=ans[:300], impl=impl[:300])
+    return ncases
+
+
 if __name__ == "__main__":
     # stand-alone run: /venv/bin/python ogginject_tie.py [cases per codec] [seed]
     import sys, random, collections, json
@@ -807,11 +1065,14 @@ if __name__ == "__main__":
             import vcheck
             self.driver = vcheck.Driver(os.path.exists(vcheck.DRIVER))
             return self.driver.available
+    c15 = len(sys.argv) > 1 and sys.argv[1] == "c15"          # ogginject_tie.py c15 [cases] [seed]
+    if c15:
+        sys.argv.pop(1)
     if len(sys.argv) > 1:
-        os.environ["VERIF_OGGINJECT_CASES"] = sys.argv[1]
+        os.environ["VERIF_OGGAPI_CASES" if c15 else "VERIF_OGGINJECT_CASES"] = sys.argv[1]
     ctx = _Ctx(int(sys.argv[2]) if len(sys.argv) > 2 else 1)
     only = sys.argv[3].split(",") if len(sys.argv) > 3 else None
-    ncases = run(ctx, only)
+    ncases = run_c15(ctx) if c15 else run(ctx, only)
     print("cases", ncases, "traces", ctx.traces_validated, "disagreements", len(ctx.disagreements), "violations", len(ctx.violations))
     for k, v in sorted(ctx.hist.items()):
         print("  ", k, v)
